@@ -182,7 +182,7 @@ def gen(rng, tier):
                 ops.append(show_op(scenario(rng, asked, [prog], d[0], d[1], rng.choice([0, 20]), pre)))
 
     # random structured scenarios
-    for i in range(260 if not thorough else 1500):
+    for i in range(450 if not thorough else 1500):
         asked = rng.choice([1, 2, 2, 3, 4, rng.range(1, 16), rng.range(1, 16), 16])
         S = rng.choice([1, 1, 2, 3, 4])
         maxn = rng.choice([8, 40, 40, 200]) if not thorough else rng.choice([8, 40, 200, 600])
@@ -333,6 +333,28 @@ def oracle(aug, res):
     STATS["spurious_wakeups_injected"] += int(head["spur"])
     STATS["scenarios_without_trace" if sc["notrace"] else "traces_validated_against_impl"] += 1
     return None
+
+
+def static_checks():
+    """tripwires: the two path conditions mirrored by Pool.seqPathElems / Pool.seqPathChunk and the hook events the trace
+    automaton relies on must still be in the source (a change there needs the model to be re-read against the code)"""
+    bad = []
+    try:
+        h = open(os.path.join(vlib.REPO, "include/nano/core/parallel.h")).read()
+        c = open(os.path.join(vlib.REPO, "src/core/parallel.cpp")).read()
+    except OSError as ex:
+        return [f"cannot read the pool sources: {ex}"]
+    for cond, name in (("if (size() == 1 || elements <= 1)", "seqPathElems"), ("if (size() == 1 || chunksize >= elements)", "seqPathChunk")):
+        if h.count(cond) != 1:
+            bad.append(f"parallel.h: the condition `{cond}` mirrored by Pool.{name} occurs {h.count(cond)} times (expected 1)")
+    want = {"pre_lock": 5, "lock_acquired": 5, "lock_release": 6, "push": 2, "notify_one": 1, "notify_all": 4, "pred": 1, "pop": 1,
+            "clear": 1, "run_begin": 1, "run_end": 1, "worker_exit": 1, "stop_set": 1, "join_begin": 1, "join_end": 1,
+            "map_enter": 2, "map_parallel": 2, "block_begin": 2, "map_return": 2}
+    for ev, n in want.items():
+        k = (h + c).count(f"NANO_VERIF_POOL({ev},")
+        if k != n:
+            bad.append(f"hook H1: event `{ev}` is emitted at {k} places (the trace automaton of Pool.checkTrace expects {n})")
+    return bad
 
 
 def compare(aug, impl, model):
